@@ -19,7 +19,7 @@ PATTERNS = [r"^[a-z]+$", r"[a-z]+", r"^abc", r"abc$", r"^\s", r"\s$", r"^[a-z]{3
             ]
 # legal patterns that compile to a large automaton (bounded repetition over Unicode classes); blockwatch compiles the pattern
 # once per block, so these run on a few hundred blocks instead of the full enumeration
-BIG_PATTERNS = [r"^\w{1,40}$", r"^[\w.-]{3,48}$", r"^\p{L}{2,60}$"]
+BIG_PATTERNS = [r"^\w{1,40}$", r"^[\w.-]{3,48}$", r"^[^\W\d]{2,60}$"]
 RULE = ("Bounded-exhaustive: every sequence of up to MAXLEN lines over a 15-symbol alphabet (matching, non-matching, "
         "indented, trailing-blank, blank, Unicode-whitespace-padded and partially matching lines) x 12 anchored/unanchored patterns (+3 patterns that compile to large automata, on short sequences) (including "
         "patterns that only an untrimmed line could match, `^\\s` and `\\s$`); plus random long blocks with Unicode text "
